@@ -28,7 +28,7 @@ func TestSim(t *testing.T) {
 	installBubble(t)
 	// per-run watchdog: a run that hangs ends the process with exit 3; the orchestrator attributes it to the run
 	// announced last (a verdict only for properties that speak about termination, otherwise exit 2)
-	limit := 90
+	limit := 240
 	if wd := os.Getenv("VERIF_WATCHDOG_S"); wd != "" {
 		fmt.Sscanf(wd, "%d", &limit)
 	}
